@@ -92,7 +92,7 @@ def stft_cfg(rng, bank=None, fl=None, fs=None, allow_fs_gt_fl=False):
         "window_function": WINDOWS[int(rng.integers(len(WINDOWS)))],
         "use_log": bool(rng.random() < 0.5),
         "use_power": bool(rng.random() < 0.5),
-        "kaldi_shift": bool(style == "centered" and rng.random() < 0.4),
+        "kaldi_shift": bool(rng.random() < (0.4 if style == "centered" else 0.25)),
     }
     return cfg
 
